@@ -1150,20 +1150,42 @@ def validate_dump_trace(rep: Report, rec: DumpRecorder, tmp, label: str):
     """TLC validates everything recorded against Trace_Dump; classification of what it rejects"""
     if not (rec.accepts or rec.leafs or rec.cfgs):
         return
-    f = tmp / f"dump_trace_{label}.json"
-    f.write_text(json.dumps({"shapes": rec.shapes, "accepts": rec.accepts, "leafs": rec.leafs, "cfgs": rec.cfgs}))
-    tr = tlc.run("Trace_Dump", "Trace_Dump", workers=DEV_WORKERS, env={"TRACE_FILE": str(f)}, timeout=2400, heap=DEV_HEAP)
-    rep.add_tlc(f"Trace_Dump[{label}]", tr)
+    # one TLC run per chunk: the whole trace of a thorough run does not fit a 4-8 GB heap once it is a TLC value
+    chunk = 12000
     total = len(rec.accepts) + len(rec.leafs) + len(rec.cfgs)
-    if tr.errors or tr.distinct != 2 * total:
-        machinery_failure(PID, f"Trace_Dump[{label}] failed (distinct={tr.distinct}, expected {total}):\n" + tr.stdout[-3000:])
-    f.unlink()
+    by = {}
+    jobs = []
+    if total <= chunk:
+        jobs.append(("all", 0, rec.accepts + rec.leafs + rec.cfgs))
+    else:
+        for kind, lst in (("accept", rec.accepts), ("leaf", rec.leafs), ("cfg", rec.cfgs)):
+            for a0 in range(0, len(lst), chunk):
+                jobs.append((kind, a0, lst[a0:a0 + chunk]))
+
+    def run_chunk(job):
+        kind, a0, part = job
+        f = tmp / f"dump_trace_{label}_{kind}_{a0}.json"
+        if kind == "all":
+            f.write_text(json.dumps({"shapes": rec.shapes, "accepts": rec.accepts, "leafs": rec.leafs, "cfgs": rec.cfgs}))
+        else:
+            f.write_text(json.dumps({"shapes": rec.shapes, "accepts": part if kind == "accept" else [], "leafs": part if kind == "leaf" else [],
+                                     "cfgs": part if kind == "cfg" else []}))
+        tr = tlc.run("Trace_Dump", "Trace_Dump", workers=DEV_WORKERS if kind == "all" else max(4, DEV_WORKERS // 2), env={"TRACE_FILE": str(f)}, timeout=2400, heap=DEV_HEAP)
+        f.unlink()
+        return job, tr
+
+    from concurrent.futures import ThreadPoolExecutor
+    with ThreadPoolExecutor(max_workers=2) as ex:
+        results = list(ex.map(run_chunk, jobs))
+    for (kind, a0, part), tr in results:
+        rep.add_tlc(f"Trace_Dump[{kind}:{a0}]", tr)
+        if tr.errors or tr.distinct != 2 * len(part):
+            machinery_failure(PID, f"Trace_Dump[{kind}:{a0}] failed (distinct={tr.distinct}, expected {2 * len(part)}):\n" + tr.stdout[-3000:])
+        for p in tr.printed:
+            if isinstance(p, list) and p and p[0] == "R":
+                by.setdefault((p[1], p[2] + a0), []).append(p[3])
     rep.traces += len(rec.leafs) + len(rec.cfgs)
     rep.evaluations += total
-    by = {}
-    for p in tr.printed:
-        if isinstance(p, list) and p and p[0] == "R":
-            by.setdefault((p[1], p[2]), []).append(p[3])
     # the independent validator (deep typed equality on the python objects) must agree with TLC's Same on every observation
     for kind, lst in (("leaf", rec.leafs), ("cfg", rec.cfgs)):
         for n, o in enumerate(lst, 1):
